@@ -26,11 +26,17 @@ def node_list(functions, cols, targets=None):
 @functools.lru_cache(maxsize=256)
 def _nodes_cached(date_iso, cols):
     _, f = harness.env(date_iso)
-    return tuple(node_list(f, cols)[0])
+    nodes, dag = node_list(f, cols)
+    return tuple(nodes), dag
 
 
 def all_nodes(date_iso, cols):
-    return list(_nodes_cached(date_iso, tuple(cols)))
+    return list(_nodes_cached(date_iso, tuple(cols))[0])
+
+
+def dag_for(date_iso, cols):
+    """networkx DiGraph of the default-target graph for these data columns."""
+    return _nodes_cached(date_iso, tuple(cols))[1]
 
 
 def sim(df, date_iso, targets=None, env=None, **kw):
